@@ -513,6 +513,36 @@ def _classify(raw, a, b):
 # ----------------------------------------------------------------- selftest
 
 
+def _utf8_model_selftest(seed):
+    """The engine's bytes.decode model (strict / replace / ignore, incl. error positions) against CPython, on every byte string of
+    length <= 3 over the boundary bytes of the UTF-8 well-formedness table and on random longer ones."""
+    import itertools, random
+    from symx.sstr import SBytes, STR_METHODS
+
+    dec = STR_METHODS["decode"]
+    pool = [0x61, 0x80, 0xBF, 0xC2, 0xC3, 0xA9, 0xE0, 0xA0, 0xE3, 0x81, 0xED, 0x9F, 0xF0, 0x90, 0xF4, 0x8F, 0xC0, 0xF5, 0xFF, 0x0A]
+    rnd = random.Random(seed)
+    cases = [bytes(t) for n_ in range(0, 3) for t in itertools.product(pool, repeat=n_)] + [bytes(rnd.choice(pool) for _ in range(rnd.randint(3, 9))) for _ in range(1500)]
+    out = []
+    for bs in cases:
+        for err in ("strict", "replace", "ignore"):
+            try:
+                want = bs.decode("utf-8", err)
+            except UnicodeDecodeError as e:
+                want = ("E", e.start, e.end)
+            try:
+                got = dec(SBytes(list(bs)), "utf-8", err)
+                got = getattr(got, "v", got)
+                got = "".join(chr(c) for c in got.cps) if hasattr(got, "cps") else got
+            except UnicodeDecodeError as e:
+                got = ("E", e.start, e.end)
+            if got != want:
+                out.append("UTF-8 decode model differs from CPython on %r errors=%s: %r vs %r" % (bs, err, got, want))
+                if len(out) > 2:
+                    return out
+    return out
+
+
 def selftest(seed):
     import glob, random, zlib, io
     import myst_parser.inventory as real
@@ -522,6 +552,7 @@ def selftest(seed):
     cmp, bad = sre.selftest([(r"(?x)(.+?)\s+(\S+)\s+(-?\d+)\s+?(\S*)\s+(.*)", 0)], seed=seed, max_len=4, n_random=300)
     for b in bad[:3]:
         problems.append("regex shim mismatch: %r" % (b,))
+    problems += _utf8_model_selftest(seed)
     inv = M["myst_parser.inventory"]
     sm = S["sphinx.util.inventory"]
     from sphinx.util.inventory import InventoryFile
